@@ -125,6 +125,24 @@ def check_property(prop, tier, repo, record=False, verbose=False):
             lines.append("UNDECIDED property=%s obligation=%s reason=replay-disagrees (counter-model did not reproduce on the real code; see %s)" % (prop, o.name, os.path.relpath(path, VERIF)))
         else:
             vio_lines.append("VIOLATION property=%s replay=%s no-failing-input-found" % (prop, os.path.relpath(path, VERIF)))
+    # --- bounded stand-in for functions the verifier could not decide ---------------------------------
+    # (left the subset, exceeded the budget, or lost obligations recorded on the unchanged tree): the native
+    # scenario harness of that function is run on the real code; a failing scenario is a violation with a
+    # real failing input, anything else stays undecided.  Labelled bounded, never counted as proved.
+    standins = []
+    undec_targets = [u["function"] for u in rep["undecided"]]
+    for mname in missing:
+        undec_targets.append("obligation:" + mname)
+    seen_fn = set()
+    for tgt in undec_targets:
+        fn = RP.function_of(tgt, rep["world"])
+        if fn is None or fn in seen_fn:
+            continue
+        seen_fn.add(fn)
+        path, status = RP.standin(prop, fn, tgt, repo, replay_dir)
+        standins.append({"function": fn, "reason": tgt, "tool": "native scenario harness (replay/realisers.py)", "result": status, "replay": os.path.relpath(path, VERIF) if path else None})
+        if status == "confirmed":
+            vio_lines.append("VIOLATION property=%s replay=%s" % (prop, os.path.relpath(path, VERIF)))
     for o, k in known_hit:
         lines.append("KNOWN-FINDING: property=%s %s" % (prop, k["what"]))
     # --- evidence ------------------------------------------------------------------------
@@ -170,6 +188,7 @@ def check_property(prop, tier, repo, record=False, verbose=False):
             "refuted_known": [{"obligation": (o.name if not isinstance(o, dict) else "ast:" + o["name"]), "finding": k["what"]} for o, k in known_hit],
             "undecided": [o.name for o in undecided if not isinstance(o, dict)] + [u["function"] + ": " + u["reason"] for u in rep["undecided"]],
             "canaries_refuted": {fn: ("sat" in sts) for fn, sts in can_by_fn.items()},
+            "bounded_standins": standins,
             "extraction_drops": DROPPED,
             "samples": samples,
             "explanation": "deductive: every named obligation is a set of per-path verification conditions generated from the current source of the functions listed; discharged = unsat of pc /\\ not goal",
